@@ -184,6 +184,7 @@ SEnv ==
 Faulty == seen \cap {"misb", "spi", "dead", "rejected", "status", "busyforever", "unpowered"} # {} \/ ~alive \/ stuck \/ lost
          \/ cfg.a41 > 1000     \* more ACMD41 rounds than the driver's time-out allows: not a legal timing
          \/ "corrupt" \in seen
+RegOps == {"num_blocks", "num_bytes", "erase_en"}     \* the calls that read the CSD register
 Corrupt == "corrupt" \in seen
 
 SRet ==
@@ -213,17 +214,20 @@ SRet ==
                 /\ (IF call.op = "num_bytes" THEN e.val # cfg.capp \/ e.rem # cfg.caprem
                     ELSE e.rem # 0 \/ e.val # (IF cfg.capp[1] >= 65536 THEN <<65535, 65535>> ELSE cfg.capp))
              THEN {<<"C12", "Capacity", "reported capacity differs from the CSD register's (structure version " \o ToString(cfg.csd.ver) \o ")">>} ELSE {})
+       \* (beyond the listed properties: the other field of the register the driver exposes)
+       \cup (IF ok /\ call.op = "erase_en" /\ ~Corrupt /\ e.val # <<0, cfg.csd.erase>>
+             THEN {<<"SPEC", "Register", "erase_single_block_enabled differs from bit 46 of the CSD register">>} ELSE {})
        \cup (IF ok /\ call.op = "card_type" /\ e.e # cfg.kind THEN {<<"C12", "CardKind", "identified " \o e.e \o " for a " \o cfg.kind \o " card">>} ELSE {})
        \cup (IF ok /\ dataop /\ call.blk >= cfg.nblocks /\ ~Faulty
              THEN {<<"C12", "OutOfRange", call.op \o " beyond the card's capacity reported success">>} ELSE {})
        \cup (IF call.op = "write" /\ "prewrong" \in seen
              THEN {<<"C12", "PreErase", "the block count announced to the card (ACMD23) is not the number of blocks of the write">>} ELSE {})
        \* C13: what must be an error
-       \cup (IF ok /\ cfg.crc /\ call.op \in {"read", "num_blocks", "num_bytes"} /\ \E i \in 1..Min2(call.n, Len(dl)) : dl[i] = "crc"
+       \cup (IF ok /\ cfg.crc /\ call.op \in {"read"} \cup RegOps /\ \E i \in 1..Min2(call.n, Len(dl)) : dl[i] = "crc"
              THEN {<<"C13", "CorruptAccepted", "corrupted data returned as good although CRC is enabled">>} ELSE {})
-       \cup (IF ok /\ call.op \in {"read", "num_blocks", "num_bytes"} /\ \E i \in 1..Min2(call.n, Len(dl)) : dl[i] = "tok"
+       \cup (IF ok /\ call.op \in {"read"} \cup RegOps /\ \E i \in 1..Min2(call.n, Len(dl)) : dl[i] = "tok"
              THEN {<<"C13", "TokenAccepted", "call reported success although an unexpected token came instead of data">>} ELSE {})
-       \cup (IF ok /\ call.op \in {"read", "num_blocks", "num_bytes"} /\ Len(dl) < call.n
+       \cup (IF ok /\ call.op \in {"read"} \cup RegOps /\ Len(dl) < call.n
              THEN {<<"C13", "NoData", "call reported success although the card did not deliver the data">>} ELSE {})
        \cup (IF ok /\ call.op = "write" /\ nst < call.n
              THEN {<<"C13", "NotStored", "write reported success although the card did not store every block">>} ELSE {})
